@@ -43,12 +43,16 @@ package proc
 
 //@ func (*listener).wrapRawConn
 //@   prop C20 C09
+//@   onlycalls internal/net.New SetStats
+//@   alsoprop C05 : calls
 //@   requires l != nil && l.stats != nil
 //@   modifies heap("Conn.Stats")
 //@   ensures @wrapped result != nil
 
 //@ func (*listener).handleRawConn
 //@   prop C20 C09
+//@   onlycalls wrapRawConn time.Now addConn (net.Conn).Close RemoteAddr (net.Listener).Addr String Debugf Warnf field:listener.connHandleFn handleRawConn$1
+//@   alsoprop C05 : calls
 //@   requires l != nil && l.cfg != nil && l.stats != nil && distinctstats(l.stats)
 //@   assume @before:handleRawConn$1 l.stats != nil && distinctstats(l.stats) && (l.conns == nil || has(l.conns, conn))
 //@   modifies all, admitted
@@ -62,17 +66,20 @@ package proc
 // ---- C09: drain leaves established connections alone; stop clears the registry and waits for the serve loop ----
 
 //@ func (*listener).Drain$1
-//@   prop C09
+//@   prop C09 C17
 //@   requires deref(l) != nil && deref(l).drain != nil && !closed(deref(l).drain)
 //@   modifies closed(deref(l).drain)
 //@   ensures @drain-latch-closed closed(deref(l).drain)
 
 //@ func (*listener).Drain
-//@   prop C09
-//@   requires l != nil
+//@   prop C09 C17
+//@   flag model-once
+//@   requires l != nil && l.drain != nil
+//@   requires @the-latch-is-closed-by-the-once-and-only-by-it oncedone(l.drainOnce) == closed(l.drain)
+//@   ensures @draining-closes-the-latch-whether-or-not-a-socket-is-bound result == nil && closed(l.drain)
 //@   nocall (net.Conn).Close
 //@   nocall removeConn
-//@   modifies closed(l.drain), heap("#closed")
+//@   modifies closed(l.drain), heap("#closed"), heap("#once")
 //@   ensures @established-connections-stay-registered l.conns == old(l.conns)
 
 //@ func (*listener).Stop
